@@ -71,6 +71,20 @@ def _get_seq_with_type(seq, bufsize=None):
     return (seq, seq_type)
 
 
+def _contains_cache(seq):
+    """Return ``True`` if *seq* is or (recursively) contains
+    an element that caches the flow passing through (a *Cache*).
+    """
+    if getattr(seq, "is_cache", False):
+        return True
+    if isinstance(seq, LenaSplit):
+        return any(_contains_cache(el) for el in seq._seqs)
+    if hasattr(seq, "_seq"):
+        # LenaSequence
+        return any(_contains_cache(el) for el in seq._seq)
+    return False
+
+
 class LenaSplit(object):
     """Abstract base class for split sequences."""
 
@@ -163,6 +177,10 @@ class Split(LenaSplit):
         If *bufsize* is ``None``,
         whole input flow is materialized in the buffer.
         *bufsize* must be a natural number or ``None``.
+        If a *Sequence* from *seqs* contains a *Cache*,
+        *bufsize* is set to ``None``:
+        a *Sequence* is run separately for each buffer,
+        while a cache must be filled with the whole flow.
 
         *copy_buf* sets whether the buffer should be copied
         during :meth:`run`.
@@ -231,6 +249,14 @@ class Split(LenaSplit):
                     "bufsize should be a natural number "
                     "or None, {} provided".format(bufsize)
                 )
+        if bufsize is not None and any(
+            seq_type == "sequence" and _contains_cache(seq)
+            for seq, seq_type in zip(new_seqs, self._seq_types)
+        ):
+            # Otherwise Cache would store the first buffer as if
+            # that was the complete flow, and would yield that
+            # instead of the following buffers (and during later runs).
+            bufsize = None
         self._bufsize = bufsize
         self._name = "Split"
 
